@@ -1080,6 +1080,7 @@ def translate_all(src_root=None):
     out.append(translate_process_event(src_root, known, known_params, known_recursive))
     out.append(translate_dispatch(src_root, known, known_params, known_recursive))
     out.append(translate_settle(src_root, known, known_params, known_recursive))
+    out.append(translate_drain(src_root, known, known_params, known_recursive))
     return "\n".join(out)
 
 
@@ -1677,6 +1678,46 @@ def translate_settle(src_root, known, known_params, known_recursive):
             fn.known_recursive = known_recursive
             out.append(fn.translate())
     return "\n".join(out)
+
+
+# ---------------------------------------------------------------------------------------------------------------------
+# the drain loop of the sync engine (_process_event_queue): shape checked (re-entrancy guard; while the queue is not empty:
+# count, cut when the count exceeds maxIterations - clearing the queue -, pop, on_event_received hooks, process the event,
+# settle), cut test translated
+def translate_drain(src_root, known, known_params, known_recursive):
+    fname, cls, func = "sync_interpreter.py", "SyncInterpreter", "_process_event_queue"
+    text, fdef = _find_method(src_root, fname, cls, func)
+    src = f"{fname}:{func}"
+    body = [st for st in fdef.body if not _is_logger(st) and not (isinstance(st, ast.Expr) and isinstance(st.value, ast.Constant))]
+
+    def bad(why):
+        raise Untranslatable(f"{src}: drain loop: {why}")
+    if len(body) != 5 or ast.unparse(body[0]) != "if self._is_processing:\n    return" or ast.unparse(body[1]) != "self._is_processing = True" \
+            or ast.unparse(body[2]) != "processed = 0" or ast.unparse(body[3]) != "limit = getattr(self.machine, 'max_iterations', 1000)" \
+            or not isinstance(body[4], ast.Try) or body[4].handlers or body[4].orelse:
+        bad("expected the re-entrancy guard, the counter, the limit and a try / finally")
+    fin = [st for st in body[4].finalbody if not _is_logger(st)]
+    if [ast.unparse(x) for x in fin] != ["self._is_processing = False"]:
+        bad("the finally block must only clear the re-entrancy flag")
+    tb = [st for st in body[4].body if not _is_logger(st)]
+    if len(tb) != 1 or not isinstance(tb[0], ast.While) or ast.unparse(tb[0].test) != "self._event_queue" or tb[0].orelse:
+        bad("expected `while self._event_queue:`")
+    lb = [st for st in tb[0].body if not _is_logger(st)]
+    want_tail = ["current_event = self._event_queue.popleft()",
+                 "for plugin in self._plugins:\n    plugin.on_event_received(self, current_event)",
+                 "self._process_event(current_event)", "self._process_transient_transitions()"]
+    if len(lb) != 6 or ast.unparse(lb[0]) != "processed += 1" or not isinstance(lb[1], ast.If) or lb[1].orelse \
+            or [ast.unparse(x) for x in lb[1].body if not _is_logger(x)] != ["self._event_queue.clear()", "break"] \
+            or [ast.unparse(x) for x in lb[2:]] != want_tail:
+        bad("expected `processed += 1; if <cut>: clear the queue; break; pop; on_event_received hooks; process the event; settle`")
+    synth = ast.FunctionDef(name=func, args=ast.arguments(posonlyargs=[], args=[ast.arg(arg="self"), ast.arg(arg="processed"), ast.arg(arg="limit")],
+                                                           kwonlyargs=[], kw_defaults=[], defaults=[]),
+                            body=[ast.Return(value=lb[1].test)], decorator_list=[], lineno=fdef.lineno)
+    ast.fix_missing_locations(synth)
+    fn = TreeFn(synth, dict(func=func, coqname="drain_cut_sync", params=[("processed", "nat"), ("limit", "nat")], ret="bool", needs=[]), src, known)
+    seg = ast.get_source_segment(text, fdef) or ""
+    return (f"(* {fname} :: {func}  sha256[:16]={hashlib.sha256(seg.encode()).hexdigest()[:16]}: shape checked; the cut test of the drain loop *)\n"
+            + fn.translate())
 
 
 def overriding_definitions(src_root=None):
